@@ -62,4 +62,6 @@ class DownChunkingPlugin(Plugin):
                     f"{self.__class__.__name__} returned a Chunk with data_type "
                     f"{wrong} instead of {self.provides}."
                 )
+            for v in values:
+                self._check_dtype(v.data, v.data_type)
             yield self.superrun_transformation(_result, superrun, subruns)
